@@ -1,6 +1,7 @@
 (* C17 — deconvolution is non-negative, scale-covariant and equals its plain definition.
    This file only pins statements; models are in Signal/Greedy.v, proofs in Signal/Greedy_proofs.v. *)
 From AG Require Import Base.Prelude Base.Res Signal.Greedy Signal.Greedy_proofs.
+From Coq Require Import Floats.
 Local Open Scope nat_scope.
 
 (* (1) The production loop with the `i += last_positive + 1` window skip computes exactly the plain
@@ -24,3 +25,46 @@ Theorem C17_pad_deconv_eq_plain :
   ls_deconv F inf ltb (nn_naive F zero szero add sub mul div fmin neg nonneg) signal response offs las.
 Proof. exact deconv_eq_plain_lemma. Qed.
 Print Assumptions C17_pad_deconv_eq_plain.
+
+(* (3) One output sample per input sample — what the code guarantees, and when.
+   A single sweep: never out of fuel; whenever it returns, the input vector has the length of the
+   signal; it does return when the response window exists, is negative and look_ahead >= 1 (otherwise
+   the slicing, the assert or the unwrap panics); a waveform too short for the window gives zeros. *)
+Theorem C17_deconv_lengths :
+  forall (F : Type) (zero szero : F) (add sub mul div fmin : F -> F -> F) (neg nonneg : F -> bool)
+         (signal response : list F) (off la : nat),
+  (forall k, nn_greedy F zero szero add sub mul div fmin neg nonneg signal response off la <> Err k) /\
+  (forall r inp, nn_greedy F zero szero add sub mul div fmin neg nonneg signal response off la = Ok (r, inp) ->
+                 length inp = length signal) /\
+  (forall rwin, slice F response off la = Some rwin -> forallb neg rwin = true -> 1 <= la ->
+     exists r inp, nn_greedy F zero szero add sub mul div fmin neg nonneg signal response off la = Ok (r, inp)) /\
+  (forall rwin, slice F response off la = Some rwin -> forallb neg rwin = true -> length signal < off + la ->
+     nn_greedy F zero szero add sub mul div fmin neg nonneg signal response off la =
+     Ok (sumsq F szero add mul signal, repeat zero (length signal))).
+Proof. exact deconv_lengths_lemma. Qed.
+Print Assumptions C17_deconv_lengths.
+
+(* The least-squares selection returns a vector of the signal's length if and only if some sweep of
+   the grid ends with a residual that compares < +infinity; if none does (every residual is NaN or
+   +infinity, or the grid is empty) it returns the EMPTY vector `Vec::new()` it started from. *)
+Theorem C17_ls_deconv_lengths :
+  forall (F : Type) (zero szero inf : F) (add sub mul div fmin : F -> F -> F) (neg nonneg : F -> bool)
+         (ltb : F -> F -> bool) (signal response : list F) (offs las : list nat) (out : list F),
+  ls_deconv F inf ltb (nn_greedy F zero szero add sub mul div fmin neg nonneg) signal response offs las = Ok out ->
+  ((exists off la r inp, In off offs /\ In la las /\
+      nn_greedy F zero szero add sub mul div fmin neg nonneg signal response off la = Ok (r, inp) /\ ltb r inf = true) ->
+   length out = length signal) /\
+  ((forall off la r inp, In off offs -> In la las ->
+      nn_greedy F zero szero add sub mul div fmin neg nonneg signal response off la = Ok (r, inp) -> ltb r inf = false) ->
+   out = []).
+Proof. exact ls_deconv_lengths_lemma. Qed.
+Print Assumptions C17_ls_deconv_lengths.
+
+(* "one output sample per input sample" therefore does NOT hold for all binary64 inputs: a sample whose
+   square overflows, or a NaN, makes every residual +inf / NaN and the pad routine returns no samples.
+   (Outside the property's domain of calibrated waveforms; the harness replays both on the implementation.) *)
+Definition resp18 : list float := repeat (-1)%float 18.
+Theorem C17_length_all_inputs_refuted :
+  exists signal : list float, length signal = 1 /\ pad_deconv_f signal resp18 = Ok [].
+Proof. exact length_all_inputs_refuted_lemma. Qed.
+Print Assumptions C17_length_all_inputs_refuted.
